@@ -392,8 +392,12 @@ class Main(Part):
                 flag("k-not-min", s, "k=%d, the smallest k merged so far is %d" % (k, s.k), i)
             cs = s.cstar()
             if c is None or abs(c - cs) > REL_TOL * max(cs, 1):
-                flag("c-not-closed-form", s, "c=%s but min(k, cumWt/wtMax)=min(%d, %s/%s)=%s" %
-                     (None if c is None else float(c), s.k, s.W, s.M, float(cs)), i)
+                what = "c=%s but min(k, cumWt/wtMax)=min(%d, %s/%s)=%s" % (None if c is None else float(c), s.k, s.W, s.M, float(cs))
+                if "empty-k" in s.taints and c is not None and (k != s.k or c > k):
+                    # the observed k is not the demanded one / c exceeds k: the empty-operand defect, whatever else happened
+                    bad.append(("merge-empty-operand-k" if "zero-draw" not in s.taints else "unit-draw-zero", "c-not-closed-form: " + what, i))
+                else:
+                    flag("c-not-closed-form", s, what, i)
             if c is not None and s.pure and s.equal_w and s.n <= s.k:
                 ew = s.equal_w
                 pow2 = (ew.numerator & (ew.numerator - 1)) == 0 and (ew.denominator & (ew.denominator - 1)) == 0 and (ew.numerator == 1 or ew.denominator == 1)
